@@ -913,8 +913,9 @@ def _src_job(args):
 
 
 def src_replay(groups, rich=False, procs=8):
+    """groups: (scn, allowed) or (scn, allowed, rich) triples"""
     from harness import core
-    jobs = [(scn, allowed, src_variants(scn, rich)) for scn, allowed in groups]
+    jobs = [(g[0], g[1], src_variants(g[0], g[2] if len(g) > 2 else rich)) for g in groups]
     total, fails = 0, []
     for n, fs in core.parallel_map(_src_job, jobs, procs=procs, chunk=100):
         total += n
